@@ -344,6 +344,10 @@ func runC19(env *lib.Env, rep *lib.Report) {
 			}
 			db = c19NewDB()
 		}
+		if env.Journal != "" {
+			// a panic inside the import goroutine kills the process: leave a note saying which case was running
+			os.WriteFile(env.Journal, []byte(fmt.Sprintf("%s: types=%v dst=%v src=%v sep=%q records=%v", fam, cs.types, cs.dstCols, cs.srcCols, string(cs.sep), cs.records)), 0644)
+		}
 		problem, nontrivial, desc := db.runCase(cs)
 		rep.AddCase(nontrivial, lib.HashString(desc), lib.HashString(problem))
 		if problem == "" {
